@@ -48,6 +48,48 @@ ODD = [b"\x00", b"\xff", b"\xef\xbb\xbf", b"\xc3", b"\xe2\x80\x9c", b"\x7f", b"\
 CLASSES = {"ident": IDENTS, "number": NUMBERS, "string": STRINGS, "operator": OPERATORS, "comment": COMMENTS, "odd": ODD}
 
 
+# ---- token-level enumeration: every symbol is a whole lexeme, so that short sequences reach the
+# state the scanners carry ACROSS tokens (nParen, insertSemi, the pending unit, go/scanner's nlPos)
+TOK_CORE = [b"(", b")", b";", b"...", b"!", b"\n", b"a", b" "]
+TOK_WIDE = [b"(", b")", b";", b"...", b"!", b"\n", b"a", b" ", b"1m", b"1", b",", b"++", b"]", b"return", b'"s"',
+            b"//c", b"/*c*/", b"/*\n*/", b"#c", b"..", b"->", b"=>", b"<>", b"**", b"*", b"?", b"$", b"~", b"@", b"\r"]
+STATEFUL = [b"(", b"(", b")", b")", b";", b";", b"...", b"...", b"!", b"!", b"\n", b"\n", b"\n", b"a", b"x1", b"f", b"1", b"2.5",
+            b'"s"', b"'c'", b",", b",", b"++", b"--", b"]", b"[", b"{", b"}", b"+", b"=", b":=", b"..", b".", b"<-", b"&&"]
+
+
+def tok_exhaustive(alpha, maxlen):
+    out = []
+    for n in range(1, maxlen + 1):
+        for t in itertools.product(alpha, repeat=n):
+            out.append(b"".join(t))
+    return out
+
+
+def stateful_sequence(rng, extra=()):
+    """4..12 lexemes drawn mostly from the tokens that read or write scanner state carried across
+    tokens: ( ) ; ... ! newline, identifiers, literals, ++ -- ] } , and the lexemes in `extra`;
+    separators: none / blank / newline.  Returns (bytes, shape)."""
+    pool = STATEFUL + list(extra)
+    n = 4 + rng.below(9)
+    out = bytearray()
+    prev = b""
+    for i in range(n):
+        lx = rng.choice(pool)
+        # keep lexemes apart where gluing would build another lexeme
+        if out and prev[-1:].isalnum() and lx[:1].isalnum():
+            out += b" "
+        elif out and prev[-1:] in b".+-=<&!:" and lx[:1] in b".+-=<>&:" and not out.endswith((b" ", b"\n")):
+            out += b" "
+        out += lx
+        k = rng.below(10)
+        if k >= 8:
+            out += b"\n"
+        elif k >= 5:
+            out += b" "
+        prev = lx
+    return bytes(out), "n%d" % n
+
+
 def case(d, comments, src):
     return "%s%s %s" % (d, "c" if comments else "n", bytes(src).hex())
 
@@ -163,6 +205,11 @@ class Runner:
         model = self.run_model(cases)
         self.ctx.diff_lines(name, cases, "\n".join(r for r, _ in impl), "\n".join(model))
         return impl, model
+
+
+def ntokens(result):
+    """number of tokens of a result line, without parsing it"""
+    return result.split("|", 1)[0].count("@") if "|" in result else 0
 
 
 def gen_notes(ctx):
